@@ -3,7 +3,7 @@
    print_seg, print_td, print_dt, join) are defined in the proof files. *)
 From Coq Require Import List ZArith NArith Bool.
 Import ListNotations.
-From TV Require Import Lib.Obs C44.Model C44.Run C44.Src C44.Proofs1 C44.Proofs2 C44.Proofs3 C44.Proofs4 C44.Proofs5 C44.Proofs6 C44.Proofs7 Gen.C44_src Gen.C44_equiv.
+From TV Require Import Lib.Obs C44.Model C44.Run C44.Src C44.Proofs1 C44.Proofs2 C44.Proofs3 C44.Proofs4 C44.Proofs5 C44.Proofs6 C44.Proofs7 C44.Proofs8 Gen.C44_src Gen.C44_equiv.
 Local Open Scope Z_scope.
 
 (* ---------------- str ---------------- *)
@@ -137,6 +137,13 @@ Theorem C44_timedelta_terms_partial : forall ts,
   terms_ok 0 ts -> parse_timedelta (join 32 (map term_text ts)) = Ok (terms_total ts).
 Proof. exact parse_timedelta_terms. Qed.
 Print Assumptions C44_timedelta_terms_partial.
+
+(* a timedelta text denotes the SUM of its components: whenever the independent reference reading
+   (tokenise on blanks, [sign]digits + unit-table lookup, add; Run.td_ref) reads a text as S, so does the parser.
+   Repeated units (same or different spelling), a unit-less last component (= seconds) and negative components included. *)
+Theorem C44_timedelta_text_denotes_sum : forall t S, td_ref t = Some S -> parse_timedelta t = Ok S.
+Proof. exact td_ref_sound. Qed.
+Print Assumptions C44_timedelta_text_denotes_sum.
 
 Theorem C44_timedelta_rejects_non_number : forall t c r,
   lstrip is_ws_re t = c :: r -> is_digit c = false -> c <> 43%N -> c <> 45%N -> c <> 46%N ->
